@@ -82,6 +82,26 @@ type parser struct {
 	col    int
 	onDeck byte
 	eof    bool
+	depth  int
+}
+
+// MaxParseDepth is the maximum depth lists, objects, list types, and
+// selection sets can be nested to in the text parsed. The parser recurses on
+// each so without a limit a few megabytes of '[' overflow the stack.
+var MaxParseDepth = 1000
+
+// deeper is called when a nested construct is entered. It should be followed
+// by a deferred call to shallower.
+func (p *parser) deeper() error {
+	p.depth++
+	if MaxParseDepth < p.depth {
+		return parseError(p.line, p.col, "nested deeper than %d", MaxParseDepth)
+	}
+	return nil
+}
+
+func (p *parser) shallower() {
+	p.depth--
 }
 
 // ParseValue parses a reader into a value where the input follows the SDL
@@ -237,6 +257,10 @@ func (p *parser) readType() (t Type, err error) {
 			return
 		case '[':
 			_, _ = p.readByte() // re-read [
+			if err = p.deeper(); err != nil {
+				return
+			}
+			defer p.shallower()
 			if t, err = p.readType(); err != nil {
 				return
 			}
@@ -467,6 +491,10 @@ func (p *parser) readValue() (v interface{}, err error) {
 		}
 	case '[':
 		_, _ = p.readByte() // re-read [
+		if err = p.deeper(); err != nil {
+			return nil, err
+		}
+		defer p.shallower()
 		list := []interface{}{}
 		for {
 			if b, err = p.skipSpace(); err != nil {
@@ -487,6 +515,10 @@ func (p *parser) readValue() (v interface{}, err error) {
 		}
 	case '{':
 		_, _ = p.readByte() // re-read {
+		if err = p.deeper(); err != nil {
+			return nil, err
+		}
+		defer p.shallower()
 		obj := map[string]interface{}{}
 		for {
 			if b, err = p.skipSpace(); err != nil {
